@@ -425,6 +425,10 @@ def interp_stmt(st, env, P):
         return [("SInvoke", S + "Span::current")]
     if re.match(r"^Self \{ inner: None, meta: (None|Some\(meta\)), \}$", st):
         return [("SMkNone",)]
+    if st == "Self { inner: self.inner.clone(), meta: self.meta, }" and env.is_span("self"):
+        return [("SIfInner", [("SInvoke", S + "Inner::clone")])]       # what derive(Clone) expands to
+    if st == "*self = source.clone()" and env.is_span("self"):
+        return [("SInvoke", S + "Span::clone"), ("SDropSpan",)]
     # ---- calls on the handle's own collector
     m = re.match(r"^([\w.]+)\.(\w+)\((.*)\)$", st)
     if m and m.group(2) in OWN_CALLS and env.own_coll_expr(m.group(1)):
@@ -602,6 +606,22 @@ def struct_def(src, name):
     return derives, fields
 
 
+def impls_of(src, cls):
+    """sorted trait names `cls` implements: its derive list plus every `impl .. Trait for cls` header"""
+    out = set()
+    d = struct_def(src, cls)
+    if d:
+        out |= set(d[0])
+    if d is None:
+        m = re.search(r"((?:#\[[^\]]*\]\s*)*)(?:pub(?:\([a-z]+\))?\s+)?struct\s+%s\b" % re.escape(cls), src)
+        if m:
+            for dd in re.findall(r"#\[derive\(([^)]*)\)\]", m.group(1)):
+                out |= {x.strip() for x in dd.split(",") if x.strip()}
+    for m in re.finditer(r"\bimpl(?:\s*<[^>{]*>)?\s+(?:!\s*)?([A-Za-z_][\w:]*)(?:<[^{]*?>)?\s+for\s+%s\b(?!:)" % re.escape(cls), src):
+        out.add(m.group(1).split("::")[-1])
+    return sorted(out)
+
+
 PURE_TYPES = {"Option<&'static Metadata<'static>>", "PhantomNotSend", "Id", "Dispatch", "&'a Span", "ManuallyDrop<T>"}
 
 
@@ -682,12 +702,23 @@ def analyse(repo):
         U.append("Inner has a Drop impl (the model has none)")
     # ---- Span: Clone / Drop / glue
     sd = struct_def(span_src, "Span")
+    CLONE_SPAN = r"\nimpl(?:<[^>]*>)? Clone for Span\s*\{"
     if re.search(r"\nimpl(?:<[^>]*>)? Clone for Span\b", span_src):
-        method("Span", "clone", r"\nimpl(?:<[^>]*>)? Clone for Span\s*\{", Env("Span", ["self"]))
+        method("Span", "clone", CLONE_SPAN, Env("Span", ["self"]))
+        cf = None
+        for _m, b_, _s, _e in find_blocks(span_src, CLONE_SPAN):
+            cf = find_fn(b_, "clone_from")
+        if cf is None:
+            row("Span::clone_from", [("SInvoke", "Span::clone"), ("SDropSpan",)])
+        else:
+            row("Span::clone_from", interp(cf[1], Env("Span", ["self"]), {}))
     elif sd and sd[1] is not None and "Clone" in sd[0]:
         row("Span::clone", derived_clone(sd[1], ""))
+        # the provided Clone::clone_from: `*self = source.clone()`: the clone is made, then the old value is dropped
+        row("Span::clone_from", [("SInvoke", "Span::clone"), ("SDropSpan",)])
     else:
         row("Span::clone", [unrec("Span is not Clone")])
+        row("Span::clone_from", [unrec("Span is not Clone")])
     method("Span", "drop", r"\nimpl Drop for Span\s*\{", Env("Span", ["self"]))
     row("Span::dropglue", glue(sd[1], True, "Span", "") + ([unrec("Inner: Drop")] if inner_has_drop else [])
         if sd and sd[1] is not None else [unrec("struct Span")])
@@ -707,6 +738,14 @@ def analyse(repo):
     for cls in ("Entered", "EnteredSpan"):
         d = struct_def(span_src, cls)
         row(cls + "::dropglue", glue(d[1], True, cls, "") if d and d[1] is not None else [unrec("struct " + cls)])
+    # ---- which traits the handle and guard types implement (derive lists and impl blocks): a new impl is a shape change
+    for cls in ("Span", "Inner", "Entered", "EnteredSpan", "PhantomNotSend"):
+        row(cls + "::impls", [("SAttrs", t) for t in impls_of(span_src, cls)])
+    es = impls_of(span_src, "EnteredSpan")
+    # `.clone()` written on an EnteredSpan guard: there is no Clone for the guard, so it auto-derefs to Span::clone
+    row("EnteredSpan::clone", [("SInvoke", "Span::clone")] if "Clone" not in es and "Deref" in es
+        else [unrec("EnteredSpan implements Clone (or lost Deref): .clone() on the guard is no longer Span::clone")])
+    row("Entered::clone", [] if "Clone" not in impls_of(span_src, "Entered") else [unrec("Entered implements Clone")])
     # ---- the span! macro and the disabled branch
     mac = load(repo, MACROS_RS, U)
     lib = load(repo, LIB_RS, U)
@@ -754,6 +793,8 @@ def analyse(repo):
         for fn in ("inner", "inner_mut", "inner_pin_ref", "inner_pin_mut", "into_inner", "dispatch"):
             row(S + "WithDispatch::" + fn,
                 pure_row(fn_body(src, r"\nimpl<T> WithDispatch<T>\s*\{", fn, U, S + "WithDispatch::" + fn), fn, U))
+        for cls in ("Instrumented", "WithDispatch"):
+            row(S + cls + "::impls", [("SAttrs", t) for t in impls_of(src, cls)])
         d = struct_def(src, "WithDispatch")
         has_drop = re.search(r"Drop for WithDispatch\b", src) is not None
         if d and d[1] is not None and not has_drop:
